@@ -93,7 +93,12 @@ class Model:
         self.l0 = np.array(desc["loading"], dtype=float)
         self.T0 = float(desc["T"])
         hc = desc.get("handicap")
-        self.fluid = None if hc == "no_backend" else next(e for e in K.backend_table() if e[0] == desc["adsorbate"])[1]
+        if hc == "no_backend":
+            self.fluid = None
+        elif hc == "user_constants":
+            self.fluid = ru.UserFluid(*desc["user_fluid"])
+        else:
+            self.fluid = next(e for e in K.backend_table() if e[0] == desc["adsorbate"])[1]
         self.T_K = desc["T_K"]
         self.supercritical = hc == "supercritical"
         self.density = desc["material"].get("density")
